@@ -131,3 +131,60 @@ impl HostIoError {
 @*/
 /*@end*/
 }
+
+// ---- host functions without continuation arguments, as wholes (rule R9: args as a slice). They ignore their host/stream
+// parameters (`_`), so `HostRuntime` is a local unit stand-in here. ----
+use std::io::{BufRead, Write};
+use zydeco_dynamics::host::{ReaderHandle, WriterHandle};
+pub struct HostRuntime;
+impl HostBytes {
+/*@fn lang/dynamics/src/impls.rs :: impl HostBytes :: fn value
+  plain
+@*/
+/*@end*/
+}
+/*@fn lang/dynamics/src/impls.rs :: fn str_scalar_length
+  plain
+  vec_as_slice args
+@*/
+/*@end*/
+/*@fn lang/dynamics/src/impls.rs :: fn str_byte_length
+  plain
+  vec_as_slice args
+@*/
+/*@end*/
+/*@fn lang/dynamics/src/impls.rs :: fn char_codepoint
+  plain
+  vec_as_slice args
+@*/
+/*@end*/
+/*@fn lang/dynamics/src/impls.rs :: fn char_to_str
+  plain
+  vec_as_slice args
+@*/
+/*@end*/
+/*@fn lang/dynamics/src/impls.rs :: fn exit
+  plain
+  vec_as_slice args
+@*/
+/*@end*/
+/*@fn lang/dynamics/src/impls.rs :: fn bytes_length
+  plain
+  vec_as_slice args
+@*/
+/*@end*/
+/*@fn lang/dynamics/src/impls.rs :: fn stdin
+  plain
+  vec_as_slice args
+@*/
+/*@end*/
+/*@fn lang/dynamics/src/impls.rs :: fn stdout
+  plain
+  vec_as_slice args
+@*/
+/*@end*/
+/*@fn lang/dynamics/src/impls.rs :: fn stderr
+  plain
+  vec_as_slice args
+@*/
+/*@end*/
